@@ -318,15 +318,16 @@ impl<T> RawTable<T> {
         if bucket.in_main {
             self.table.replace_bucket_with(bucket.bucket, f)
         } else if let Some(ref mut lo) = self.leftovers {
-            let items = &mut lo.items;
-            let b = bucket.bucket.clone();
-            lo.table.replace_bucket_with(b, move |t| {
-                let v = f(t);
-                if v.is_none() {
-                    items.reflect_remove(&bucket.bucket);
-                }
-                v
-            })
+            // The element is out of its bucket while `f` runs, and stays out if `f` returns `None`
+            // or panics, so the cached iterator must stop expecting it _before_ that happens.
+            // If the element is put back, so is the iterator.
+            let items = lo.items.clone();
+            lo.items.reflect_remove(&bucket.bucket);
+            let occupied = lo.table.replace_bucket_with(bucket.bucket, f);
+            if occupied {
+                lo.items = items;
+            }
+            occupied
         } else {
             unreachable!("invalid bucket state");
         }
